@@ -117,6 +117,7 @@ func (d *Driver) ResetPath() {
 var rtClass = map[string]string{
 	"AssertDivideByZero": "divide", "AssertIndexRange": "bounds", "AssertNegativeShift": "shift", "NewSlice3": "bounds", "StringSlice": "bounds",
 	"MakeSlice": "bounds", "PanicSliceConvert": "bounds", "AssertNilDeref": "nilptr", "Panic": "",
+	"ChanSend": "chan", "ChanTrySend": "chan", "ChanClose": "chan", "Select": "chan", "TrySelect": "chan",
 }
 
 // Call implements llfe.Bridge: runtime entry points run on front end G.
